@@ -9,7 +9,6 @@ import (
 
 	"github.com/markkurossi/mpc/circuit"
 	"github.com/markkurossi/mpc/env"
-	"github.com/markkurossi/mpc/p2p"
 	"pgregory.net/rapid"
 
 	"verifharness/internal/ev"
@@ -75,7 +74,7 @@ func runConc(cs ConcCase) ev.Outcome {
 			defer wg.Done()
 			time.Sleep(time.Duration(s.DelayUS) * time.Microsecond)
 			d := xport.NewDuplex(nil, nil)
-			gConn, eConn := p2p.NewConn(d.A), p2p.NewConn(d.B)
+			gConn, eConn := d.Conns()
 			cfg := &env.Config{Rand: gen.NewDRBG(s.Seed, 1)}
 			gOT, eOT := makeOT("co", s.Seed, 0), makeOT("co", s.Seed, 1)
 			results[i].res = xport.RunPair(d,
